@@ -153,9 +153,9 @@ def generate(rng, tier):
         cases.append(c)
     for _ in range(70 if q else 500):
         cases.append(angle_case(rng))
-    for _ in range(16 if q else 120):
+    for _ in range(12 if q else 100):
         cases.append(field_case_3d(rng, "emergent"))
-    for _ in range(14 if q else 100):
+    for _ in range(10 if q else 80):
         cases.append(field_case_3d(rng, "bps"))
     for _ in range(4 if q else 24):
         cases.append(demagN_case(rng))
@@ -170,6 +170,7 @@ def generate(rng, tier):
         cases.append(demag_case(rng, k))
     for k in range(36 if q else 150):
         cases.append(refuse_case(rng, k))
+    rng.shuffle(cases)      # balances the cost of the Coq shards
     return cases
 
 
@@ -272,7 +273,7 @@ def meta_case(rng):
     c["lengths"] = [g.qs(F(rng.choice([1, 2, 3, 5, 1000, 123457]), rng.choice([1, 2, 7, 1000])))
                     for _ in range(sh[0] * sh[1])]
     c["mesh_scale"] = g.qs(rng.choice([F(1, 2), F(3), F(1, 10**9), F(7, 3), F(10**6), F(5, 10**9)]))
-    c["mesh_shift"] = [g.qs(F(rng.randint(-50, 50), rng.choice([1, 3, 10**9]))) for _ in range(2)]
+    c["mesh_shift"] = [g.qs(F(rng.randint(-50, 50), rng.choice([1, 3, 8]))) for _ in range(2)]
     c["quarter_k"] = rng.choice([1, 2, 3])
     return c
 
@@ -321,14 +322,16 @@ def hedgehog_case(rng):
 
 def demag_case(rng, k):
     shapes = [[2, 2, 2], [3, 3, 3], [4, 2, 3], [2, 5, 3], [1, 4, 2], [6, 3, 2], [3, 1, 1], [2, 2, 5]]
-    cells = [[1, 1, 1], [1, 2, 3], [F(1, 2), 1, 3], [2, 1, 1], [5e-9, 5e-9, 5e-9], [3, 2, 1], [1, 1, 4]]
+    cells = [[1, 2, 3], [F(1, 2), 1, 3], [2, 1, 1], [3, 2, 1], [1, 1, 4], [5e-9, 2.5e-9, 1e-8], [1, 3, 1], [2, 3, F(1, 2)]]
     sh = shapes[k % len(shapes)] if k < len(shapes) else [rng.randint(1, 5) for _ in range(3)]
     if k == 0:
         cell = [1, 1, 1]
     elif k == 1:
         cell = [F(1, 2)] * 3
-    else:
-        cell = rng.choice(cells)
+    elif k == 2:
+        cell = [5e-9] * 3
+    else:       # anisotropic cells (an axis / cell-size mix-up cancels on cubic cells)
+        cell = cells[(k + rng.randrange(len(cells))) % len(cells)]
     return dict(kind="demag", sh=sh, cell=[g.qs(x) for x in cell], M=g.qs(rng.choice([1.0, 2.5, 8e5])),
                 slow=(math.prod(sh) <= 12))
 
@@ -365,7 +368,7 @@ def bl_value(v0, va, vb):
     return 2 * math.atan2(t, 1 + vdot(v0, va) + vdot(va, vb) + vdot(vb, v0)) / (4 * math.pi)
 
 
-def bl_table(o, sh):
+def bl_table(o, sh, valid=None):
     """all geometrically existing triangles (validity ignored): exact keys, recorded values"""
     tab = {}
     risky = False
@@ -377,6 +380,8 @@ def bl_table(o, sh):
             for t in range(4):
                 a, b = nb[t], nb[(t + 1) % 4]
                 if not (0 <= a[0] < n0 and 0 <= a[1] < n1 and 0 <= b[0] < n0 and 0 <= b[1] < n1):
+                    continue
+                if valid is not None and not (valid[i, j] and valid[a] and valid[b]):
                     continue
                 v0, va, vb = o[i, j], o[a], o[b]
                 e0, ea, eb = ([F(x) for x in v.tolist()] for v in (v0, va, vb))
@@ -440,7 +445,7 @@ def run_tcd(c, rec):
         coq = (f'CTcdCont {g.nl(sh)} {g.q(h1)} {g.q(h2)} {g.b(p[0])} {g.b(p[1])} {g.q(F(C4))} '
                f'{g.ql(fracs(o))} {g.bl(c["valid"])} {g.ql(fracs(out))}')
     else:
-        tab, risky, ang_bad = bl_table(o, sh)
+        tab, risky, ang_bad = bl_table(o, sh, np.array(c["valid"], dtype=bool).reshape(*sh))
         if ang_bad:
             rec["oracle"].append("bl-angle-differs-from-solid-angle-over-4pi")
         coq = (f'CTcdBL {g.nl(sh)} {g.q(h1)} {g.q(h2)} {g.ql(fracs(o))} {g.bl(c["valid"])} '
@@ -738,7 +743,7 @@ def run_meta(c, rec):
     # mesh rescaled and translated
     s = fl(c["mesh_scale"])
     t = [fl(x) for x in c["mesh_shift"]]
-    p1 = [fl(a) * s + b for a, b in zip(c["p1"], t)]
+    p1 = [(fl(a) + b) * s for a, b in zip(c["p1"], t)]   # shift given in units of the rescaled lengths
     p2 = [a + k * fl(h) * s for a, k, h in zip(p1, sh, c["cell"])]
     st, mesh2 = attempt(lambda: df.Mesh(region=df.Region(p1=p1, p2=p2, dims=c.get("dims")), n=sh, bc=c.get("bc", "")))
     if st == "ok":
@@ -774,6 +779,12 @@ def run_meta(c, rec):
     for m in uni:
         if uni[m][1] is None or far(uni[m][1], 0.0, 1e-12) or far(uni[m][0], 0.0, 1e-12 * 4 / dA):
             rec["oracle"].append(f"uniform-field-nonzero-{m}")
+    # values stored in invalid cells must not influence the result
+    vmask = np.array(c["valid"], dtype=bool).reshape(*sh)
+    if not vmask.all():
+        pert = f.array.copy()
+        pert[~vmask] = np.array([0.3, -1.7, 0.9]) + 0.1 * np.arange(3)
+        compare("invalid-cell-values", with_array(f, pert))
     # absolute charge bounds the signed one
     for m in ("continuous", "berg-luescher"):
         st, qa = attempt(lambda: dft.topological_charge(f, method=m, absolute=True))
